@@ -727,3 +727,77 @@ def neighbourhood(cex):
             if inside:
                 add2 = [lo + (inside[0] - lo) * (j + 1) / (extra + 2) for j in range(extra)]
                 yield sorted(set(M + add2))
+
+
+# =============================================================================================
+# role discovery: the loop-head hooks identify the variables they talk about by their ROLE
+# (type of the value / how the loop uses them in the AST), not by their spelling, so that renaming a
+# local of the filter is not an alarm
+# =============================================================================================
+def discover_roles(func, L):
+    import ast as _ast
+    import inspect as _inspect
+    import textwrap as _tw
+    fn = _ast.parse(_tw.dedent(_inspect.getsource(func))).body[0]
+    loop = next(s_ for s_ in fn.body if isinstance(s_, _ast.While))
+    roles = {}
+    bags = [k for k, v in L.items() if isinstance(v, Bag)]
+    roles["bag"] = bags[0] if len(bags) == 1 else None
+    ints = [k for k, v in L.items() if isinstance(v, IntegratorStub)]
+    roles["integrator"] = ints[0] if len(ints) == 1 else None
+    stored = {n.id for n in _ast.walk(loop) if isinstance(n, _ast.Name) and isinstance(n.ctx, _ast.Store)}
+    # measurement cursor: the name that indexes the measurement-times array inside the loop
+    mi = {n.slice.id for n in _ast.walk(loop) if isinstance(n, _ast.Subscript) and isinstance(n.value, _ast.Name) and n.value.id == roles["bag"]
+          and isinstance(n.slice, _ast.Name)}
+    roles["mi"] = next(iter(mi)) if len(mi) == 1 else None
+    # increments cursor: the name used as `<table>.iloc[NAME]` / `<table>.iloc[NAME:...]` on the increments argument
+    params = [a.arg for a in fn.args.args]
+    tables = [k for k, v in L.items() if isinstance(v, IncTable) and k in params]
+    xi = set()
+    for n in _ast.walk(loop):
+        if isinstance(n, _ast.Subscript) and isinstance(n.value, _ast.Attribute) and n.value.attr == "iloc" and isinstance(n.value.value, _ast.Name) and n.value.value.id in tables:
+            sl = n.slice
+            if isinstance(sl, _ast.Name):
+                xi.add(sl.id)
+            elif isinstance(sl, _ast.Slice) and isinstance(sl.lower, _ast.Name):
+                xi.add(sl.lower.id)
+    xi &= stored
+    roles["xi"] = next(iter(xi)) if len(xi) == 1 else None
+    # row cursor of the feedforward filter: stored in the loop and read by the loop test
+    test_names = {n.id for n in _ast.walk(loop.test) if isinstance(n, _ast.Name)}
+    idx = (test_names & stored)
+    roles["index"] = next(iter(idx)) if len(idx) == 1 else None
+    # result lists (empty python lists at loop entry that the loop appends to) and innovation logs (dicts of lists)
+    appended = {n.func.value.id for n in _ast.walk(loop) if isinstance(n, _ast.Call) and isinstance(n.func, _ast.Attribute) and n.func.attr == "append"
+                and isinstance(n.func.value, _ast.Name)}
+    roles["lists"] = sorted(k for k, v in L.items() if isinstance(v, list) and k in appended)
+    roles["dicts"] = sorted(k for k, v in L.items() if isinstance(v, dict) and v and all(isinstance(x, list) for x in v.values()))
+    # names that receive the Kalman correction / are the propagated payload (x, P)
+    cor = [n for n in _ast.walk(loop) if isinstance(n, _ast.Assign) and isinstance(n.value, _ast.Call) and _ast.unparse(n.value.func).endswith("correct")
+           and isinstance(n.targets[0], _ast.Tuple)]
+    roles["correct_targets"] = [e.id for e in cor[0].targets[0].elts if isinstance(e, _ast.Name)] if cor else []
+    roles["models"] = [k for k in params if isinstance(L.get(k), ModelStub)]
+    roles["stored"] = stored
+    return roles
+
+
+def times_list(L, roles):
+    """(name of the list holding result TIMES, names of the payload lists): told apart by what was appended"""
+    tl, others = None, []
+    for k in roles["lists"]:
+        if any(isinstance(x, ZSym) for x in L[k]):
+            tl = k
+        else:
+            others.append(k)
+    return tl, others
+
+
+def innovation_logs(L, roles):
+    """(dict holding the row times, dict holding the rows)"""
+    td = od = None
+    for k in roles["dicts"]:
+        if any(isinstance(x, ZSym) for lst in L[k].values() for x in lst):
+            td = k
+        else:
+            od = k if od is None else od
+    return td, od
